@@ -105,12 +105,14 @@ def families(tier, seed):
     V = env.VERSIONS
     if tier == 'quick':
         fams = [sigma.fam(a, 3, V) for a in ('ws', 'blocks', 'strs', 'ops', 'stm', 'stm2', 'chars')]
+        fams.append(sigma.fam('contstr', 4, V))
         fams += [sigma.fam(a, 4, ['3.6', '3.8', '3.14'], name='%s=4' % a, n_lo=4)
                  for a in ('ws', 'blocks', 'strs', 'ops', 'stm', 'chars')]
         k = ('ws', 'blocks', 'strs', 'stm2')[seed % 4]
         fams.append(sigma.seed_slice(k, 5 if k != 'stm2' else 4, ['3.8', '3.14'], seed, 64))
     else:
         fams = [sigma.fam(a, 4, V) for a in ('ws', 'blocks', 'strs', 'ops', 'stm', 'stm2', 'chars')]
+        fams.append(sigma.fam('contstr', 5, V))
         fams += [sigma.fam(a, 5, ['3.6', '3.12'], name='%s=5' % a, n_lo=5) for a in ('ws', 'blocks', 'strs')]
         fams.append(sigma.fam('chars', 5, ['3.8'], name='chars=5', n_lo=5))
     if tier == 'quick':
